@@ -3,7 +3,31 @@ use amverif::*;
 #[global_allocator]
 static ALLOC: amverif::shared::ledger::Ledger = amverif::shared::ledger::Ledger;
 
+/// A logger that accepts every level and formats every record into nothing: the crate's log statements
+/// (and the expressions they evaluate) run as they would in an application that logs at trace level.
+struct NullLogger;
+struct NullWriter;
+impl std::fmt::Write for NullWriter {
+    fn write_str(&mut self, _s: &str) -> std::fmt::Result {
+        Ok(())
+    }
+}
+impl log::Log for NullLogger {
+    fn enabled(&self, _m: &log::Metadata) -> bool {
+        true
+    }
+    fn log(&self, record: &log::Record) {
+        let _ = std::fmt::write(&mut NullWriter, *record.args());
+    }
+    fn flush(&self) {}
+}
+static LOGGER: NullLogger = NullLogger;
+
 fn main() {
+    if std::env::var("AMV_LOG").map_or(true, |v| v != "off") {
+        let _ = log::set_logger(&LOGGER);
+        log::set_max_level(log::LevelFilter::Trace);
+    }
     let args: Vec<String> = std::env::args().collect();
     let cmd = args.get(1).map(|s| s.as_str()).unwrap_or("");
     let rest: Vec<String> = args.iter().skip(2).cloned().collect();
